@@ -96,6 +96,18 @@ static int hexval(int c) {
 // returns malloc'ed bytes (at least 1 byte allocated), *n = length; "-" = empty
 static uint8_t* unhex(const char* s, size_t* n) {
   size_t l = strlen(s);
+  if (s[0] == '@') {  // @path: the bytes of that file
+    FILE* f = fopen(s + 1, "rb");
+    *n = 0;
+    if (!f) return (uint8_t*)malloc(1);
+    fseek(f, 0, SEEK_END);
+    long sz = ftell(f);
+    fseek(f, 0, SEEK_SET);
+    uint8_t* b = (uint8_t*)malloc((size_t)sz + 1);
+    *n = fread(b, 1, (size_t)sz, f);
+    fclose(f);
+    return b;
+  }
   if (l == 1 && s[0] == '-') {
     *n = 0;
     return (uint8_t*)malloc(1);
@@ -251,6 +263,20 @@ static void run_io(const params* p, void* obj, const uint8_t* src, size_t srclen
       s.meta.wi = fed;
       s.meta.closed = (fed == srclen);
       continue;
+    }
+    if (st == wuffs_base__suspension__short_workbuf) {
+      // the required length is known only after the header (lzma/xz/lzip dictionaries):
+      // grow, keeping the contents, the new part pre-filled with the pattern
+      size_t need = (size_t)wuffs_base__io_transformer__workbuf_len(t).max_incl;
+      if (need > wlen && need <= (1u << 28)) {
+        uint8_t* nb = (uint8_t*)malloc(need + 1);
+        fill(nb, need, p->prefill, 79);
+        memcpy(nb, wb, wlen);
+        free(wb);
+        wb = nb;
+        wlen = need;
+        continue;
+      }
     }
     break;
   }
